@@ -229,6 +229,12 @@ func (x *chainExec) body(h int, c flamego.Context) {
 			if x.v.PK == "deepnosrc" {
 				deepPanic(150, x.panicVal())
 			}
+			if x.v.PK == "hook" && c != nil && !c.ResponseWriter().Written() {
+				// the panic is raised by a function registered to run before the first write, i.e. from INSIDE the
+				// handler's own WriteHeader call and before any status went out
+				c.ResponseWriter().Before(func(flamego.ResponseWriter) { panic(x.panicVal()) })
+				c.ResponseWriter().WriteHeader(200 + h)
+			}
 			panic(x.panicVal())
 		}
 	}
@@ -508,7 +514,7 @@ func chainVarFor(c *chainCase, idx int) cVar {
 	rng := rand.New(rand.NewSource(int64(idx)*7919 + int64(envInt("VERIF_SEED", 1))))
 	n := c.N
 	v := cVar{Env: []string{"development", "production", "test"}[rng.Intn(3)],
-		PK: []string{"string", "error", "runtime", "struct", "abort", "deepnosrc"}[rng.Intn(6)], Fast: rng.Intn(3), Reqs: 1 + rng.Intn(2)}
+		PK: []string{"string", "error", "runtime", "struct", "abort", "deepnosrc", "hook"}[rng.Intn(7)], Fast: rng.Intn(3), Reqs: 1 + rng.Intn(2)}
 	v.Der = rng.Intn(2) == 0
 	v.DL = v.Der && rng.Intn(2) == 0
 	v.WK = rng.Intn(6)
